@@ -1,0 +1,66 @@
+//! Verification-only hooks (cargo feature `verif-hooks`, off by default).
+//!
+//! A labelled "tick" is emitted at every storage statement boundary (before the
+//! connection mutex is taken) and at a few labelled points inside the explicit
+//! snapshot / restore transactions. An external runtime-monitoring harness installs
+//! a hook to count ticks, to kill the process at the k-th tick, to yield between
+//! critical sections, or - inside the two explicit transactions only - to inject an
+//! error. Nothing in this module is compiled into normal builds.
+
+use std::cell::RefCell;
+use std::sync::{Arc, RwLock};
+
+use crate::error::Error;
+
+/// What the hook asks the storage layer to do at a tick.
+#[derive(Debug, Clone, Copy, PartialEq, Eq)]
+pub enum TickAction {
+    /// Carry on.
+    Continue,
+    /// Return an injected `Error::Database` (honoured only by fallible ticks inside the
+    /// explicit snapshot / restore transactions; ignored elsewhere).
+    Fail,
+}
+
+/// Hook type: receives the tick label.
+pub type TickHook = Arc<dyn Fn(&'static str) -> TickAction + Send + Sync>;
+
+static GLOBAL_HOOK: RwLock<Option<TickHook>> = RwLock::new(None);
+
+thread_local! {
+    static THREAD_HOOK: RefCell<Option<TickHook>> = const { RefCell::new(None) };
+}
+
+/// Install (or clear) the process-wide tick hook.
+pub fn set_tick_hook(hook: Option<TickHook>) {
+    *GLOBAL_HOOK.write().unwrap() = hook;
+}
+
+/// Install (or clear) a tick hook for the current thread only; takes precedence over the
+/// process-wide hook.
+pub fn set_thread_tick_hook(hook: Option<TickHook>) {
+    THREAD_HOOK.with(|h| *h.borrow_mut() = hook);
+}
+
+fn current_hook() -> Option<TickHook> {
+    let local = THREAD_HOOK.with(|h| h.borrow().clone());
+    if local.is_some() {
+        return local;
+    }
+    GLOBAL_HOOK.read().unwrap().clone()
+}
+
+pub(crate) fn tick(label: &'static str) {
+    if let Some(hook) = current_hook() {
+        let _ = hook(label);
+    }
+}
+
+pub(crate) fn tick_fallible(label: &'static str) -> Result<(), Error> {
+    if let Some(hook) = current_hook()
+        && hook(label) == TickAction::Fail
+    {
+        return Err(Error::Database(format!("verif: injected failure at {label}")));
+    }
+    Ok(())
+}
